@@ -15,8 +15,14 @@ import (
 	"sync"
 	"time"
 
+	"github.com/omec-project/upf-epc/internal/p4constants"
 	pb "github.com/omec-project/upf-epc/pfcpiface/bess_pb"
+	p4 "github.com/p4lang/p4runtime/go/p4/v1"
 )
+
+var _ = p4constants.MeterPreQosPipeSliceTcMeter
+
+var _ p4.Update_Type
 
 var _ time.Duration
 var _ pb.BESSControlClient
@@ -89,6 +95,12 @@ func allocated[T any](x T) bool { panic("ghost builtin") }
 
 // ptrAt reinterprets an object identity as a pointer to an object of type T.
 func ptrAt[T any](ref int) *T { panic("ghost builtin") }
+
+// sliceRef is the identity of the backing array of s; elemAt reads element a (absolute
+// position) of the backing array ref holding elements of type T.
+func sliceRef[T any](s []T) int { panic("ghost builtin") }
+
+func elemAt[T any](ref int, a int) T { panic("ghost builtin") }
 
 // nonNil reports whether a pointer, slice, or interface payload reference is non-nil.
 func nonNil[T any](x T) bool { panic("ghost builtin") }
@@ -488,3 +500,35 @@ func specSliceCmd(e int) *pb.QosCommandAddArg {
 //@   ensures C19.bessmeter.ulburst: glen("bess") > old[int](glen("bess")) && meterConfig.N6BurstBytes != 0 ==> specSliceCmd(gentry("bess", old[int](glen("bess")))).Pbs == meterConfig.N6BurstBytes
 //@   ensures C19.bessmeter.dl: glen("bess") > old[int](glen("bess"))+1 && meterConfig.N3RateBps != 0 ==> specSliceCmd(gentry("bess", old[int](glen("bess"))+1)).Gate == sliceMeterGateMeter && specSliceCmd(gentry("bess", old[int](glen("bess"))+1)).Pir == meterConfig.N3RateBps/8
 //@   ensures C19.bessmeter.dlburst: glen("bess") > old[int](glen("bess"))+1 && meterConfig.N3BurstBytes != 0 ==> specSliceCmd(gentry("bess", old[int](glen("bess"))+1)).Pbs == meterConfig.N3BurstBytes
+
+// ---------------------------------------------------------------------------
+// P4Runtime write boundary (p4rtc.go): assumed contracts with ghost logs
+// ---------------------------------------------------------------------------
+
+// Ghost log "p4meter": one entry per ApplyMeterEntries call. Fields: method, and the identity,
+// offset and length of the entries slice (the entries are read back with specMeterEntry).
+//@ func (c *P4rtClient) ApplyMeterEntries(methodType p4.Update_Type, entries ...*p4.MeterEntry) (err error)
+//@   trusted
+//@   appends p4meter
+//@   ensures gfield("p4meter.method", gentry("p4meter", glen("p4meter")-1)) == uint64(methodType) && gfield("p4meter.ptr", gentry("p4meter", glen("p4meter")-1)) == uint64(sliceRef(entries)) && gfield("p4meter.off", gentry("p4meter", glen("p4meter")-1)) == uint64(lo(entries)) && gfield("p4meter.n", gentry("p4meter", glen("p4meter")-1)) == uint64(len(entries))
+
+// specMeterEntry: the k-th MeterEntry of the write logged as entry e of "p4meter".
+func specMeterEntry(e int, k int) *p4.MeterEntry {
+	return elemAt[*p4.MeterEntry](int(gfield("p4meter.ptr", e)), int(gfield("p4meter.off", e))+k)
+}
+
+//@ func GetSliceTCMeterIndex(sliceID uint8, TC uint8) (r int64, err error)
+//@   ensures C16.meteridx.refuse: err != nil <==> sliceID >= 16 || TC >= 4
+//@   ensures C16.meteridx.value: err == nil ==> r == int64(sliceID)*4+int64(TC) && 0 <= r && r < 64
+
+//@ func (up4 *UP4) tryConnect() (err error)
+//@   trusted
+//@   modifies UP4.p4client, UP4.p4RtTranslator, UP4.connected, UP4.counters, UP4.appMeterCellIDsPool, UP4.sessMeterCellIDsPool, UP4.endMarkerChan
+//@   ensures err == nil ==> up4.p4client != nil && up4.p4RtTranslator != nil
+
+//@ func (up4 *UP4) AddSliceInfo(sliceInfo *SliceInfo) (err error)
+//@   requires up4 != nil && sliceInfo != nil
+//@   ensures C19.up4.atmost: glen("p4meter") <= old[int](glen("p4meter"))+1
+//@   ensures C19.up4.ok: err == nil ==> glen("p4meter") == old[int](glen("p4meter"))+1
+//@   ensures C19.up4.entry: glen("p4meter") == old[int](glen("p4meter"))+1 ==> gfield("p4meter.method", gentry("p4meter", old[int](glen("p4meter")))) == uint64(p4.Update_MODIFY) && gfield("p4meter.n", gentry("p4meter", old[int](glen("p4meter")))) == 1 && specMeterEntry(gentry("p4meter", old[int](glen("p4meter"))), 0).MeterId == p4constants.MeterPreQosPipeSliceTcMeter && specMeterEntry(gentry("p4meter", old[int](glen("p4meter"))), 0).Index.Index == int64(up4.conf.SliceID)*4+int64(up4.conf.DefaultTC)
+//@   ensures C19.up4.rate: glen("p4meter") == old[int](glen("p4meter"))+1 ==> specMeterEntry(gentry("p4meter", old[int](glen("p4meter"))), 0).Config.Pir == int64(maxUint64(sliceInfo.uplinkMbr, sliceInfo.downlinkMbr)) && (sliceInfo.uplinkMbr > sliceInfo.downlinkMbr ==> specMeterEntry(gentry("p4meter", old[int](glen("p4meter"))), 0).Config.Pburst == int64(sliceInfo.ulBurstBytes)) && (sliceInfo.uplinkMbr <= sliceInfo.downlinkMbr ==> specMeterEntry(gentry("p4meter", old[int](glen("p4meter"))), 0).Config.Pburst == int64(sliceInfo.dlBurstBytes))
